@@ -61,6 +61,14 @@ def replay_case(case):
     # the documented defaults passed explicitly
     from chempy.util.parsing import formula_to_composition, _latex_mapping
     t = fc.code_text(case["in"]["txt"])
+    try:    # the caller may do what it likes with a returned mapping: it must not affect later parses
+        mine = formula_to_composition(t)
+        for k in list(mine):
+            mine[k] += 1
+        mine[0] = mine.get(0, 0) + 3
+        mine[999] = 1
+    except Exception:
+        pass
     again = fc.observe(lambda s: formula_to_composition(s, prefixes=list(_latex_mapping.keys()),
                                                         suffixes=("(s)", "(l)", "(g)", "(aq)")), t)
     if {k: v for k, v in again.items() if k != "exc"} != {k: v for k, v in o1.items() if k != "exc"}:
